@@ -106,10 +106,11 @@ func (e *StoreEngine) HalfWritten() []string {
 // deletes are scheduling points; data objects, commit-object reads and commit snapshot
 // files are not (they are immutable or private to their writer).
 func DefaultStoreSched(op, rel string) bool {
-	if op == "delp" {
-		return true
-	}
 	parts := strings.Split(rel, "/")
+	if op == "delp" {
+		// removal of a pool directory; prefix deletes below it (data.Writer.Abort) are private
+		return len(parts) == 1
+	}
 	last := parts[len(parts)-1]
 	if len(parts) == 1 {
 		return true // lake.zng
